@@ -1956,3 +1956,324 @@ def e_param_profiles_apertures(c):
     f = c.call(ShepardIDWInterpolator, coords, vals)
     if f is not None:
         c.call(f, c.par([[1, 2], [50, 60]], 'positions', kinds=('int', 'float', 'list')), n_neighbors=4)
+
+
+# ----------------------------------------------------------------------
+# fifth layer (generic axes ii / vi): unit-ful inputs in EQUIVALENT BUT DIFFERENT units, Table vs QTable, Angle forms,
+# numpy-scalar / 0-d scalar forms; degenerate inputs.  Where photutils documents "same units" the documented error
+# is simply counted (the inputs are compared on raise as well).
+# ----------------------------------------------------------------------
+def _unit_pair(c):
+    import astropy.units as u
+    pairs = [(u.Jy, u.mJy, 1e3), (u.Jy, u.uJy, 1e6), (u.mJy, u.Jy, 1e-3), (u.ct, u.kct, 1e-3), (u.ct, u.ct, 1.0),
+             (u.electron, u.electron, 1.0)]
+    return pairs[int(c.rng.integers(0, len(pairs)))]
+
+
+def _as_q(c, arr, unit, name):
+    """Quantity built on top of a represented value array (the Quantity object is what the library receives)."""
+    import astropy.units as u
+    a = np.asarray(np.ma.getdata(arr) if isinstance(arr, np.ma.MaskedArray) else
+                   (arr.value if isinstance(arr, u.Quantity) else arr), dtype=float)
+    return c.own(u.Quantity(a, unit, copy=True), name)
+
+
+@entry('units_tables')
+def e_units_tables(c):
+    import astropy.units as u
+    from astropy.table import QTable, Table
+    from photutils.datasets import make_model_image
+    from photutils.psf import (CircularGaussianPRF, IterativePSFPhotometry, PSFPhotometry, SourceGrouper,
+                               make_psf_model_image)
+    from photutils.detection import DAOStarFinder
+    rng = c.rng
+    du, ou, f = _unit_pair(c)              # data unit, other (equivalent) unit, value factor data->other
+    c.axes['unit_pair_' + ('same' if du == ou else 'different')] = 1
+    n = len(c.xy)
+    flux = c.amp * 2 * np.pi * c.sigma ** 2
+    # ---- make_model_image / make_psf_model_image: QTable with flux in the data unit and local_bkg in the other
+    def params(local=True, flux_unit=du, lb_unit=ou, cls=QTable, names=('x_0', 'y_0', 'flux')):
+        t = cls()
+        t[names[0]] = c.xy[:, 0] + rng.uniform(-0.3, 0.3, n)
+        t[names[1]] = c.xy[:, 1] + rng.uniform(-0.3, 0.3, n)
+        fv = flux if flux_unit is None else (flux * (f if flux_unit == ou else 1.0)) * flux_unit
+        t[names[2]] = fv
+        if local:
+            lb = np.full(n, c.s(0.2))
+            t['local_bkg'] = lb if lb_unit is None else (lb * (f if lb_unit == ou else 1.0)) * lb_unit
+        if rng.random() < 0.3:
+            t['model_shape'] = 9
+        t.meta['k'] = 'v'
+        return c.own(t, 'params_table')
+    model = c.own(CircularGaussianPRF(fwhm=c.fwhm), 'psf_model')
+    c.call(make_model_image, c.shape, model, params(), model_shape=(9, 9))
+    c.call(make_model_image, c.shape, model, params(lb_unit=du), model_shape=(9, 9))
+    c.call(make_model_image, c.shape, model, params(flux_unit=ou, lb_unit=du), bbox_factor=3.0)
+    c.call(make_model_image, c.shape, model, params(flux_unit=None, lb_unit=None, cls=Table), model_shape=(7, 7))
+    c.call(make_model_image, c.shape, model, params(flux_unit=None, lb_unit=ou), model_shape=(7, 7))   # unit mismatch
+    qmodel = c.own(CircularGaussianPRF(flux=1.0 * du, fwhm=c.fwhm), 'psf_model')
+    c.call(make_model_image, c.shape, qmodel, params(lb_unit=ou), model_shape=(9, 9))
+    c.call(make_psf_model_image, c.shape, model, 4, model_shape=(9, 9), seed=1,
+           flux=c.own((flux.min(), flux.max()) * du, 'flux_range'))
+    # ---- PSF photometry: data in du, error in ou, init_params flux / local_bkg columns in ou
+    data_q = _as_q(c, c.data, du, 'data_q')
+    err_q = _as_q(c, np.where(np.isfinite(c.raw_err), c.raw_err, c.s(1.0)) * f, ou, 'error_q')
+    init = params(flux_unit=ou, lb_unit=ou, names=[('x_0', 'y_0', 'flux'), ('x_init', 'y_init', 'flux_init'),
+                                                    ('xcentroid', 'ycentroid', 'flux')][int(rng.integers(0, 3))])
+    p = c.call(PSFPhotometry, model, (5, 5), aperture_radius=4.0, progress_bar=False,
+               grouper=SourceGrouper(10.0) if rng.random() < 0.4 else None)
+    if p is not None:
+        r = c.call(p, data_q, mask=c.mask, error=err_q, init_params=init)
+        if r is not None:
+            c.call(p.make_model_image, c.shape, psf_shape=(7, 7), include_localbkg=True)
+            c.call(p.make_residual_image, data_q, psf_shape=(7, 7), include_localbkg=bool(rng.integers(0, 2)))
+        c.call(p, data_q, error=_as_q(c, c.raw_err, du, 'error_q'), init_params=params(flux_unit=du, lb_unit=du))
+        c.call(p, c.data, init_params=params(flux_unit=None, lb_unit=None, cls=Table))
+    if rng.random() < 0.4:
+        thr = (_thr(c) * 1.5 * f) * ou
+        ip = c.call(IterativePSFPhotometry, model, (5, 5), DAOStarFinder(thr, c.fwhm), aperture_radius=4.0,
+                    maxiters=2, progress_bar=False)
+        if ip is not None:
+            c.call(ip, data_q, mask=c.mask, error=err_q, init_params=init if rng.random() < 0.5 else None)
+
+
+@entry('units_images')
+def e_units_images(c):
+    import astropy.units as u
+    import photutils.profiles as P
+    from astropy.coordinates import Angle
+    from photutils.aperture import (ApertureStats, CircularAperture, EllipticalAperture, RectangularAperture,
+                                    SkyCircularAperture, SkyEllipticalAperture, aperture_photometry)
+    from photutils.background import Background2D, LocalBackground
+    from photutils.datasets import make_wcs
+    from photutils.detection import DAOStarFinder, find_peaks
+    from photutils.morphology import data_properties
+    from photutils.segmentation import SourceCatalog, detect_sources, detect_threshold
+    from photutils.utils import calc_total_error
+    rng = c.rng
+    du, ou, f = _unit_pair(c)
+    c.axes['unit_pair_' + ('same' if du == ou else 'different')] = 1
+    data_q = _as_q(c, c.data, du, 'data_q')
+    err = np.where(np.isfinite(c.raw_err), c.raw_err, c.s(1.0))
+    err_o = _as_q(c, err * f, ou, 'error_q')
+    bkg_o = _as_q(c, np.full(c.shape, c.s(0.2)) * f, ou, 'background_q')
+    thr_o = _as_q(c, np.full(c.shape, _thr(c)) * f, ou, 'threshold_q')
+    pos = c.plain(c.xy, 'positions')
+    # angle forms: radians float, Quantity deg / arcmin, Angle
+    th = [0.4, 23.0 * u.deg, (23.0 * 60) * u.arcmin, Angle(0.4, u.rad)][int(rng.integers(0, 4))]
+    if not isinstance(th, float):
+        c.own(th, 'theta')
+        c.axes['angle_quantity_form'] = 1
+    aps = [c.call(CircularAperture, pos, 4.0), c.call(EllipticalAperture, pos, 5.0, 3.0, theta=th),
+           c.call(RectangularAperture, pos, 6.0, 4.0, theta=th)]
+    aps = [c.own(a, 'aperture') for a in aps if a is not None]
+    if aps:
+        c.call(aperture_photometry, data_q, aps, error=err_o, mask=c.mask)
+        c.call(aperture_photometry, data_q, aps[0], error=_as_q(c, err, du, 'error_q'))
+        c.call(aperture_photometry, c.data, aps[0], error=err_o)                      # unit-less data, unit-ful error
+        st = c.call(ApertureStats, data_q, aps[-1], error=err_o, mask=c.mask,
+                    local_bkg=c.own(np.full(len(c.xy), c.s(0.1)) * f * ou, 'local_bkg_q'))
+        c.read_all(st)
+        wcs = make_wcs(c.shape)
+        sky = c.call(aps[0].to_sky, wcs)
+        if sky is not None:
+            sp = c.own(sky.positions, 'skycoord')
+            r = [0.4 * u.arcsec, (0.4 / 60) * u.arcmin, (0.4 / 3600) * u.deg][int(rng.integers(0, 3))]
+            s1 = c.call(SkyCircularAperture, sp, r=c.own(r, 'r'))
+            s2 = c.call(SkyEllipticalAperture, sp, a=2 * r, b=r, theta=c.own(30 * 60 * u.arcmin, 'theta'))
+            for s_ in (s1, s2):
+                if s_ is not None:
+                    c.call(aperture_photometry, data_q, s_, error=err_o, wcs=wcs)
+                    c.call(s_.to_pixel, wcs)
+    segm = _segm(c)
+    if segm is not None:
+        c.own(segm, 'segment_img')
+        cat = c.call(SourceCatalog, data_q, segm, error=err_o, background=bkg_o, mask=c.mask, progress_bar=False,
+                     localbkg_width=int(rng.choice([0, 4])))
+        c.read_all(cat, methods=('to_table',))
+        cat2 = c.call(SourceCatalog, data_q, segm, error=_as_q(c, err, du, 'error_q'),
+                      background=_as_q(c, np.full(c.shape, c.s(0.2)), du, 'background_q'), progress_bar=False)
+        if cat2 is not None:
+            c.call(getattr, cat2, 'kron_flux')
+            c.call(getattr, cat2, 'segment_fluxerr')
+            c.call(getattr, cat2, 'background_mean')
+    gain = c.own(np.full(c.shape, 2.0 / c.scale) * u.electron / du, 'effective_gain')
+    c.call(calc_total_error, data_q, _as_q(c, np.full(c.shape, c.s(1.2)) * f, ou, 'bkg_error_q'), gain)
+    c.call(calc_total_error, data_q, _as_q(c, np.full(c.shape, c.s(1.2)), du, 'bkg_error_q'), gain)
+    c.call(detect_threshold, data_q, c.par(2.0, 'nsigma', kinds=('plain', 'npscalar')), background=bkg_o, error=err_o,
+           mask=c.mask)
+    c.call(detect_threshold, data_q, 2.0, background=(c.s(0.1) * f) * ou, error=(c.s(1.0) * f) * ou)
+    c.call(detect_sources, data_q, thr_o, 5, mask=c.mask)
+    c.call(detect_sources, data_q, (_thr(c) * f) * ou, 5)
+    c.call(find_peaks, data_q, thr_o, box_size=5, mask=c.mask, error=err_o)
+    c.call(find_peaks, data_q, (_thr(c) * f) * ou, box_size=5)
+    fd = c.call(DAOStarFinder, (_thr(c) * 1.5 * f) * ou, c.par(c.fwhm, 'fwhm', kinds=('plain', 'npscalar')),
+                peakmax=(c.s(250.0) * f) * ou if rng.random() < 0.5 else None)
+    if fd is not None:
+        c.call(fd, data_q, mask=c.mask)
+    c.call(Background2D, data_q, 8, mask=c.mask)
+    lb = c.call(LocalBackground, 5.0, 9.0)
+    if lb is not None:
+        c.call(lb, data_q, float(c.xy[0, 0]), float(c.xy[0, 1]))
+    d, e, m = _cutout(c)
+    dq = _as_q(c, d, du, 'cutout_q')
+    c.call(data_properties, dq, mask=m, background=(c.s(0.1) * f) * ou)
+    x, y = c.xy[0]
+    rp = c.call(P.RadialProfile, data_q, (float(x), float(y)), c.plain(np.arange(0, 8.0), 'radii'), error=err_o,
+                mask=c.mask)
+    c.read_all(rp)
+    cg = c.call(P.CurveOfGrowth, data_q, (float(x), float(y)), c.plain(np.arange(1, 8.0), 'radii'),
+                error=_as_q(c, err, du, 'error_q'), mask=c.mask)
+    c.read_all(cg)
+
+
+@entry('degenerate')
+def e_degenerate(c):
+    """(vi) rarely used branches: 1xN / Nx1 / 1x1 images, constant image, everything masked, nothing detected,
+    empty tables and selections, a single source, objects entirely off the image."""
+    import photutils.profiles as P
+    from astropy.table import QTable, Table
+    from photutils.aperture import ApertureStats, CircularAperture, aperture_photometry
+    from photutils.background import Background2D, MedianBackground
+    from photutils.centroids import centroid_com, centroid_quadratic, centroid_sources
+    from photutils.datasets import make_model_image
+    from photutils.detection import DAOStarFinder, StarFinder, find_peaks
+    from photutils.morphology import data_properties, gini
+    from photutils.psf import CircularGaussianPRF, PSFPhotometry, SourceGrouper
+    from photutils.segmentation import SegmentationImage, SourceCatalog, deblend_sources, detect_sources
+    from photutils.utils import CutoutImage
+    rng = c.rng
+    kind = ['row', 'column', 'pixel', 'constant', 'allmasked', 'nothing', 'empty_tables', 'single', 'offimage'][
+        int(rng.integers(0, 9))]
+    c.axes['degenerate_' + kind] = 1
+    model = c.own(CircularGaussianPRF(fwhm=c.fwhm), 'psf_model')
+    if kind in ('row', 'column', 'pixel'):
+        n = int(rng.integers(5, 40))
+        shp = {'row': (1, n), 'column': (n, 1), 'pixel': (1, 1)}[kind]
+        img = c.arr(rng.normal(c.s(5.0), c.s(1.0), shp), 'data_thin', primary=True)
+        msk = c.boolarr(rng.random(shp) < 0.2, 'mask_thin')
+        c.call(Background2D, img, (1, 3) if kind == 'row' else (3, 1) if kind == 'column' else 1, mask=msk)
+        c.call(detect_sources, img, c.q(c.s(5.0)), 1, mask=msk)
+        c.call(find_peaks, img, c.q(c.s(5.0)), box_size=3, mask=msk)
+        c.call(centroid_com, img, mask=msk)
+        c.call(centroid_quadratic, img)
+        c.call(gini, img, mask=msk)
+        ap = c.call(CircularAperture, c.plain([[0.0, 0.0], [2.0, 0.0]], 'positions'), 1.5)
+        if ap is not None:
+            c.call(aperture_photometry, img, ap, mask=msk)
+            st = c.call(ApertureStats, img, ap, mask=msk)
+            c.read_all(st)
+        c.call(CutoutImage, img, (0, 0), (3, 3), mode='partial')
+        c.call(MedianBackground(), img)
+        c.call(data_properties, img, mask=msk)
+        return
+    if kind in ('constant', 'allmasked', 'nothing'):
+        if kind == 'constant':
+            img = c.arr(np.full(c.shape, c.s(3.0)), 'data_const', primary=True)
+            msk = c.mask
+        elif kind == 'allmasked':
+            img = c.data
+            msk = c.boolarr(np.ones(c.shape, bool), 'mask_all')
+        else:
+            img = c.arr(rng.normal(0, c.s(1.0), c.shape), 'data_noise', primary=True)
+            msk = c.mask
+        high = c.q(c.s(1e4))
+        b = c.call(Background2D, img, 8, mask=msk)
+        c.read_all(b)
+        c.call(detect_sources, img, high, 5, mask=msk)
+        c.call(find_peaks, img, high, box_size=5, mask=msk)
+        f = c.call(DAOStarFinder, high, c.fwhm)
+        if f is not None:
+            c.call(f, img, mask=msk)
+        sf = c.call(StarFinder, high, c.arr(c.raw_kernel, 'kernel', secondary=True, unit=False, allow_int=False))
+        if sf is not None:
+            c.call(sf, img, mask=msk)
+        c.call(centroid_com, img, mask=msk)
+        c.call(gini, img, mask=msk)
+        x, y = c.xy[0]
+        rp = c.call(P.RadialProfile, img, (float(x), float(y)), c.plain(np.arange(0, 8.0), 'radii'), mask=msk)
+        c.read_all(rp)
+        ap = c.call(CircularAperture, c.plain(c.xy, 'positions'), 4.0)
+        if ap is not None:
+            st = c.call(ApertureStats, img, ap, mask=msk)
+            c.read_all(st)
+        p = c.call(PSFPhotometry, model, (5, 5), finder=DAOStarFinder(high, c.fwhm), aperture_radius=4.0,
+                   progress_bar=False)
+        if p is not None:
+            c.call(p, img, mask=msk)                      # nothing found
+            c.call(p, img, mask=msk, init_params=c.star_table())
+        return
+    if kind == 'empty_tables':
+        cls = QTable if c.qtable else Table
+        t = c.own(cls({'x_0': np.array([], float), 'y_0': np.array([], float), 'flux': np.array([], float)}), 'table')
+        c.call(make_model_image, c.shape, model, t, model_shape=(7, 7))
+        p = c.call(PSFPhotometry, model, (5, 5), aperture_radius=4.0, progress_bar=False)
+        if p is not None:
+            c.call(p, c.data, mask=c.mask, error=c.error, init_params=t)
+        e0 = c.plain(np.array([], float), 'empty')
+        c.call(centroid_sources, c.data, e0, e0, box_size=5)
+        c.call(SourceGrouper(5.0), e0, e0)
+        segm = _segm(c)
+        if segm is not None:
+            s = SegmentationImage(segm.data.copy())
+            c.call(s.keep_labels, c.plain(np.array([], int), 'labels', dtype=int))
+            c.call(s.remove_labels, c.plain(np.array([], int), 'labels', dtype=int))
+            c.call(s.get_indices, c.plain(np.array([], int), 'labels', dtype=int))
+            c.call(deblend_sources, c.data, s, 4, labels=c.plain(np.array([], int), 'labels', dtype=int),
+                   progress_bar=False)
+            z = c.call(SegmentationImage, c.plain(np.zeros(c.shape, int), 'segm_zero', dtype=int))
+            c.read_all(z, skip=('cmap',))
+            if z is not None:
+                c.call(z.relabel_consecutive)
+                c.call(SourceCatalog, c.data, z, error=c.error, progress_bar=False)
+        return
+    if kind == 'single':
+        t = c.star_table()
+        one = c.own(t[:1], 'table_one')
+        c.call(make_model_image, c.shape, model, one, model_shape=(7, 7))
+        p = c.call(PSFPhotometry, model, (5, 5), aperture_radius=4.0, grouper=SourceGrouper(5.0), progress_bar=False)
+        if p is not None:
+            c.call(p, c.data, mask=c.mask, error=c.error, init_params=one)
+            c.read_all(p)
+        ap = c.call(CircularAperture, c.plain(c.xy[0], 'position'), 4.0)                  # scalar aperture
+        if ap is not None:
+            c.call(aperture_photometry, c.data, ap, error=c.error, mask=c.mask)
+            st = c.call(ApertureStats, c.data, ap, error=c.error, mask=c.mask)
+            c.read_all(st)
+            c.read_all(ap)
+        segm = _segm(c)
+        if segm is not None:
+            s = SegmentationImage(segm.data.copy())
+            s.keep_label(int(s.labels[0]))
+            c.own(s, 'segment_img')
+            cat = c.call(SourceCatalog, c.data, s, error=c.error, mask=c.mask, progress_bar=False)
+            c.read_all(cat, methods=('to_table',))
+            one_c = c.call(lambda: cat[0]) if cat is not None else None
+            c.read_all(one_c)
+        return
+    # objects entirely off the image / partially overlapping
+    off = np.array([[-30.0, -30.0], [c.shape[1] + 40.0, 5.0], [c.xy[0, 0], c.xy[0, 1]], [0.0, c.shape[0] - 1.0]])
+    pos = c.plain(off, 'positions')
+    ap = c.call(CircularAperture, pos, 4.0)
+    if ap is not None:
+        c.call(aperture_photometry, c.data, ap, error=c.error, mask=c.mask)
+        st = c.call(ApertureStats, c.data, ap, error=c.error, mask=c.mask)
+        c.read_all(st)
+        c.call(ap.to_mask)
+        c.call(ap.area_overlap, c.data, mask=c.mask)
+    cls = QTable if c.qtable else Table
+    t = cls()
+    t['x_0'] = off[:, 0]
+    t['y_0'] = off[:, 1]
+    t['flux'] = c.q(np.full(len(off), c.s(500.0)))
+    t['local_bkg'] = c.q(np.full(len(off), c.s(0.1)))
+    c.own(t, 'table')
+    c.call(make_model_image, c.shape, model, t, model_shape=(9, 9))
+    p = c.call(PSFPhotometry, model, (5, 5), aperture_radius=4.0, progress_bar=False)
+    if p is not None:
+        c.call(p, c.data, mask=c.mask, error=c.error, init_params=t)
+        c.call(p.make_model_image, c.shape, psf_shape=(7, 7))
+    c.call(CutoutImage, c.data, (-20, -20), (5, 5), mode='partial')
+    x, y = off[0]
+    rp = c.call(P.RadialProfile, c.data, (float(x), float(y)), c.plain(np.arange(0, 6.0), 'radii'), mask=c.mask)
+    c.read_all(rp)
